@@ -208,11 +208,11 @@ def apply_rules(text, rules):
     return text
 
 
-def rewrite_derives(text, keep=("Clone", "Copy", "PartialEq", "Eq")):
+def rewrite_derives(text, keep=("Clone", "Copy", "PartialEq", "Eq"), structural=True):
     def f(m):
         names = [x.strip() for x in m.group(1).split(",") if x.strip()]
         k = [x for x in names if x in keep]
-        if "PartialEq" in k:
+        if "PartialEq" in k and structural:
             k.append("Structural")
         return "#[derive(%s)]" % ", ".join(k) if k else ""
     return re.sub(r"#\[derive\(([^)]*)\)\]", f, text)
@@ -331,7 +331,11 @@ def splice_fn(it_spec, item, contract, unit, em, extraction, active=None, featur
         m = re.search(r"->\s*(.+?)\s*$", sig, re.S)
         if not m:
             raise Unsupported("%s: @returns given but no return type" % key)
-        sig = sig[:m.start()] + "-> (%s: %s)\n" % (ret, m.group(1).strip())
+        rt, wh = m.group(1).strip(), ""
+        mw = re.search(r"\bwhere\b", rt)
+        if mw:
+            rt, wh = rt[:mw.start()].strip(), "\n    " + rt[mw.start():].strip().rstrip(",")
+        sig = sig[:m.start()] + "-> (%s: %s)%s\n" % (ret, rt, wh)
     if it_spec.get("sig_prefix"):
         sig = it_spec["sig_prefix"] + " " + sig.lstrip()
     # ---- R18: `mut self` (by value) is not accepted by Verus: take it as `self` and rebind it at function entry
@@ -343,6 +347,7 @@ def splice_fn(it_spec, item, contract, unit, em, extraction, active=None, featur
     if mut_self and not it_spec.get("assumed"):
         body = "{\n let mut vself = self;\n" + lower.subst_ident(body.strip()[1:-1], "self", "vself") + "\n}"
     body = apply_cfg(body, features)
+    body = re.sub(r"#!\[[^\]]*\]", "", body)   # inner attributes (lints) are erased like outer ones
     body = drop_use_stmts(body)
     log = []
     body = apply_rules(body, it_spec.get("pre_body_rules", []))
@@ -514,7 +519,7 @@ def emit_body(body, key, em):
 def emit_plain(it_spec, item, unit, em, extraction, features=()):
     key = it_spec["key"]
     text = apply_cfg(strip_comments(item.text), features)
-    text = rewrite_derives(text)
+    text = rewrite_derives(text, keep=unit.get("derive_keep", ("Clone", "Copy", "PartialEq", "Eq")), structural=unit.get("structural", True))
     text = drop_attrs(text)
     text = drop_vis(text)
     text = apply_rules(text, it_spec.get("rules", []))
